@@ -123,7 +123,7 @@ func names(ts []types.Type) []string {
 
 func checkConcrete(p *core.Prog, r *core.Report, info *types.Info, t types.Type, ctx string) {
 	n := types.TypeString(t, func(*types.Package) string { return "" })
-	key := "gts.(*LocationList).Push|case " + ctx + n
+	key := "gts.(*LocationList).Push|case=" + ctx + n
 	if _, isIface := t.Underlying().(*types.Interface); isIface {
 		r.Bad("PUSH-CASES", key, "-", "case "+n+" is an interface: it also matches location types the clause was not written for (Ambiguous, Joined, ...)")
 		return
